@@ -921,7 +921,7 @@ func runWait(srv *Server, wc WaitCase) ([]Case, error) {
 var errStop = fmt.Errorf("stop")
 
 func genWait(r *Rng) WaitCase {
-	wc := WaitCase{Parts: r.PickInt(1, 1, 2, 3, 4), N0: r.PickInt(0, 1, 3)}
+	wc := WaitCase{Parts: r.PickInt(1, 1, 2, 3, 4, 4, 5, 6), N0: r.PickInt(0, 1, 3)}
 	wc.Target = r.Intn(wc.Parts)
 	wc.Scen = r.PickStr("WsBefore", "WsHeld", "WsHeld", "WsSleeping", "WsSleeping", "WsLateFlush", "WsLateFlush", "WsNone")
 	if wc.N0 == 0 && wc.Scen == "WsNone" {
@@ -1051,6 +1051,7 @@ type replayT struct {
 	Range *RangeCase `json:"range"`
 	Select *SelectCase `json:"select"`
 	Via    string      `json:"via"`
+	Edge   *EdgeCase   `json:"edge"`
 }
 
 func main() {
@@ -1093,6 +1094,20 @@ func main() {
 					return err
 				}
 				c.Add(*cs)
+			case "edge":
+				var cs []Case
+				var err error
+				if rp.Edge.What == "rollover" {
+					cs, err = runRollover(*rp.Edge)
+				} else {
+					cs, err = runEdge(srv, *rp.Edge)
+				}
+				if err != nil {
+					return err
+				}
+				for _, x := range cs {
+					c.Add(x)
+				}
 			case "empty":
 				cs, err := runEmpty(srv, rp.Via)
 				if err != nil {
@@ -1147,6 +1162,29 @@ func main() {
 		)
 		sels = append(sels, make([]*Case, 6)...)
 		serr = append(serr, make([]error, 6)...)
+		// the edges of the wait mechanism, always: WaitTimeout 60 (served) / 61 / -1 (refused) through both queriers, a request
+		// cancelled while it waits (1 and 3 partitions), three readers waiting on one partition, an event that opens a new chunk
+		edgeJobs := []EdgeCase{
+			{What: "timeout", Timeout: 0}, {What: "timeout", Timeout: 0, Via: "rpc"},
+			{What: "timeout", Timeout: 60}, {What: "timeout", Timeout: 61}, {What: "timeout", Timeout: -1},
+			{What: "timeout", Timeout: 60, Via: "rpc"}, {What: "timeout", Timeout: 61, Via: "rpc"}, {What: "timeout", Timeout: -1, Via: "rpc"},
+			{What: "cancel", Parts: 1}, {What: "cancel", Parts: 3}, {What: "cancel", Parts: 2, Via: "rpc"},
+			{What: "multi", Readers: 3}, {What: "multi", Readers: 2, Via: "rpc"},
+			{What: "rollover"},
+		}
+		edges := make([][]Case, len(edgeJobs))
+		gerr := make([]error, len(edgeJobs))
+		wg.Add(1)
+		go func() {
+			defer wg.Done()
+			Parallel(len(edgeJobs), 4, func(i int) {
+				if edgeJobs[i].What == "rollover" {
+					edges[i], gerr[i] = runRollover(edgeJobs[i])
+				} else {
+					edges[i], gerr[i] = runEdge(srv, edgeJobs[i])
+				}
+			})
+		}()
 		empties := make([]*Case, 2)
 		eerr := make([]error, 2)
 		wg.Add(1)
@@ -1229,6 +1267,14 @@ func main() {
 				return rerr[i]
 			}
 			c.Add(*rearm[i])
+		}
+		for i := range edges {
+			if gerr[i] != nil {
+				return gerr[i]
+			}
+			for _, x := range edges[i] {
+				c.Add(x)
+			}
 		}
 		for i := range empties {
 			if eerr[i] != nil {
